@@ -174,14 +174,170 @@ theorem ti_unsubscribeDone (c : C) (r : Req) (store : List Sub) (hg : ∀ t ∈ 
 
 /-! ### dispatch -/
 
-/-- what `onPublish` hands to the callbacks: one invocation per (callback, filter) entry of the
-abstract store whose filter matches the topic -/
+/-- what `onPublish` hands to the callbacks: of the (callback, filter) entries of the abstract store
+whose filter matches the topic (`r`, in trie order), the first entry of every callback -/
 theorem onPublish_perm (c : C) (store : List Sub) (h : TI c.topics store) (p : Pub) (hg : good p.topic = true)
     (hn : validName p.topic = true) (hq : p.qos ≤ 2) :
-    ∃ r : List (Nat × Nat), onPublish c p = r.map (fun s => Out.deliver s.1 { p with qos := s.2 }) ∧
+    ∃ r : List (Nat × Nat), onPublish c p = (firstPerCb [] r).map (fun s => Out.deliver s.1 { p with qos := s.2 }) ∧
       r.Perm (specAnswer store p.topic p.qos) := by
   obtain ⟨r, hr, hp⟩ := subscribers_refines c.topics store p.topic p.qos h.inv hg hn hq
   exact ⟨r, by simp [onPublish, hr], hp⟩
+
+/-! #### `firstPerCb`: one entry per callback -/
+
+/-- the QoS the loop picks is that of one of the callback's entries -/
+theorem maxQos_mem (cb : Nat) (rest : List (Nat × Nat)) : ∀ q : Nat,
+    maxQos cb q rest = q ∨ (cb, maxQos cb q rest) ∈ rest := by
+  induction rest with
+  | nil => intro q; exact Or.inl rfl
+  | cons x rest ih =>
+    intro q
+    simp only [maxQos]
+    by_cases hx : (x.1 == cb && x.2 > q) = true
+    · simp only [hx, ↓reduceIte]
+      have hx1 : x.1 = cb := by
+        simp only [Bool.and_eq_true, beq_iff_eq] at hx; exact hx.1
+      rcases ih x.2 with h | h
+      · right; rw [h, ← hx1]; exact List.mem_cons_self
+      · right; exact List.mem_cons_of_mem _ h
+    · simp only [hx, Bool.false_eq_true, ↓reduceIte]
+      rcases ih q with h | h
+      · exact Or.inl h
+      · exact Or.inr (List.mem_cons_of_mem _ h)
+
+/-- … and it is at least the QoS of every one of them -/
+theorem maxQos_ge (cb : Nat) (rest : List (Nat × Nat)) : ∀ q : Nat,
+    q ≤ maxQos cb q rest ∧ ∀ x ∈ rest, x.1 = cb → x.2 ≤ maxQos cb q rest := by
+  induction rest with
+  | nil => intro q; exact ⟨Nat.le_refl _, fun x hx => by cases hx⟩
+  | cons y rest ih =>
+    intro q
+    simp only [maxQos]
+    by_cases hy : (y.1 == cb && y.2 > q) = true
+    · simp only [hy, ↓reduceIte]
+      have hy2 : y.2 > q := by
+        simp only [Bool.and_eq_true, decide_eq_true_eq] at hy; exact hy.2
+      obtain ⟨h1, h2⟩ := ih y.2
+      refine ⟨by omega, ?_⟩
+      intro x hx hcb
+      rcases List.mem_cons.mp hx with rfl | hx'
+      · exact h1
+      · exact h2 x hx' hcb
+    · simp only [hy, Bool.false_eq_true, ↓reduceIte]
+      obtain ⟨h1, h2⟩ := ih q
+      refine ⟨h1, ?_⟩
+      intro x hx hcb
+      rcases List.mem_cons.mp hx with rfl | hx'
+      · have : ¬ x.2 > q := by
+          intro hgt
+          apply hy
+          simp [hcb, hgt]
+        omega
+      · exact h2 x hx' hcb
+
+theorem firstPerCb_subset (l : List (Nat × Nat)) : ∀ seen, ∀ s ∈ firstPerCb seen l, s ∈ l := by
+  induction l with
+  | nil => intro seen s hs; simp [firstPerCb] at hs
+  | cons a l ih =>
+    intro seen s hs
+    simp only [firstPerCb] at hs
+    split at hs
+    · exact List.mem_cons_of_mem _ (ih seen s hs)
+    · rcases List.mem_cons.mp hs with rfl | hs'
+      · rcases maxQos_mem a.1 l a.2 with h | h
+        · rw [h]; exact List.mem_cons_self
+        · exact List.mem_cons_of_mem _ h
+      · exact List.mem_cons_of_mem _ (ih _ s hs')
+
+/-- a callback is invoked iff it has an entry and was not seen before -/
+theorem mem_firstPerCb_cb (l : List (Nat × Nat)) : ∀ (seen : List Nat) (cb : Nat),
+    cb ∈ (firstPerCb seen l).map (·.1) ↔ cb ∈ l.map (·.1) ∧ cb ∉ seen := by
+  induction l with
+  | nil => intro seen cb; simp [firstPerCb]
+  | cons a l ih =>
+    intro seen cb
+    simp only [firstPerCb]
+    by_cases hs : seen.contains a.1 = true
+    · have ha : a.1 ∈ seen := List.contains_iff_mem.mp hs
+      simp only [hs, ↓reduceIte, ih, List.map_cons, List.mem_cons]
+      constructor
+      · rintro ⟨h1, h2⟩; exact ⟨Or.inr h1, h2⟩
+      · rintro ⟨h1 | h1, h2⟩
+        · subst h1; exact absurd ha h2
+        · exact ⟨h1, h2⟩
+    · have ha : a.1 ∉ seen := fun h => hs (List.contains_iff_mem.mpr h)
+      simp only [hs, Bool.false_eq_true, ↓reduceIte, List.map_cons, List.mem_cons, ih]
+      constructor
+      · rintro (h | ⟨h1, h2⟩)
+        · subst h; exact ⟨Or.inl rfl, ha⟩
+        · exact ⟨Or.inr h1, fun h => h2 (Or.inr h)⟩
+      · rintro ⟨h1 | h1, h2⟩
+        · exact Or.inl h1
+        · by_cases hc : cb = a.1
+          · exact Or.inl hc
+          · exact Or.inr ⟨h1, fun h => by rcases h with h | h; exact hc h; exact h2 h⟩
+
+/-- no callback is invoked twice -/
+theorem firstPerCb_nodup (l : List (Nat × Nat)) : ∀ seen : List Nat, ((firstPerCb seen l).map (·.1)).Nodup := by
+  induction l with
+  | nil => intro seen; simp [firstPerCb]
+  | cons a l ih =>
+    intro seen
+    simp only [firstPerCb]
+    split
+    · exact ih seen
+    · rw [List.map_cons, List.nodup_cons]
+      refine ⟨?_, ih _⟩
+      rw [mem_firstPerCb_cb]
+      rintro ⟨_, h⟩
+      exact h (by simp)
+
+/-- the QoS an invoked callback gets is the highest among its entries - whatever their order -/
+theorem firstPerCb_max (l : List (Nat × Nat)) : ∀ (seen : List Nat) (s : Nat × Nat), s ∈ firstPerCb seen l →
+    ∀ x ∈ l, x.1 = s.1 → x.2 ≤ s.2 := by
+  induction l with
+  | nil => intro seen s hs; simp [firstPerCb] at hs
+  | cons a l ih =>
+    intro seen s hs x hx hcb
+    simp only [firstPerCb] at hs
+    by_cases hsn : seen.contains a.1 = true
+    · simp only [hsn, ↓reduceIte] at hs
+      rcases List.mem_cons.mp hx with rfl | hx'
+      · -- `s`'s callback is not in `seen`, `x`'s is: they differ
+        have h1 : s.1 ∈ (firstPerCb seen l).map (·.1) := List.mem_map.mpr ⟨s, hs, rfl⟩
+        rw [mem_firstPerCb_cb] at h1
+        exact absurd (hcb ▸ List.contains_iff_mem.mp hsn) h1.2
+      · exact ih seen s hs x hx' hcb
+    · simp only [hsn, Bool.false_eq_true, ↓reduceIte] at hs
+      rcases List.mem_cons.mp hs with rfl | hs'
+      · obtain ⟨h1, h2⟩ := maxQos_ge a.1 l a.2
+        rcases List.mem_cons.mp hx with rfl | hx'
+        · exact h1
+        · exact h2 x hx' hcb
+      · rcases List.mem_cons.mp hx with rfl | hx'
+        · have h1 : s.1 ∈ (firstPerCb (x.1 :: seen) l).map (·.1) := List.mem_map.mpr ⟨s, hs', rfl⟩
+          rw [mem_firstPerCb_cb] at h1
+          exact absurd (by rw [hcb]; exact List.mem_cons_self) h1.2
+        · exact ih _ s hs' x hx' hcb
+
+theorem length_filter_nodup_key (l : List (Nat × Nat)) (cb : Nat) (hn : (l.map (·.1)).Nodup) :
+    (l.filter (fun s => s.1 == cb)).length = if cb ∈ l.map (·.1) then 1 else 0 := by
+  induction l with
+  | nil => rfl
+  | cons a l ih =>
+    rw [List.map_cons, List.nodup_cons] at hn
+    have ih' := ih hn.2
+    simp only [List.filter_cons, List.map_cons, List.mem_cons]
+    by_cases ha : a.1 = cb
+    · have hnot : cb ∉ l.map (·.1) := ha ▸ hn.1
+      simp only [hnot, ↓reduceIte] at ih'
+      simp [ha, ih']
+    · have ha' : ¬ cb = a.1 := fun h => ha h.symm
+      have hor : (cb = a.1 ∨ cb ∈ l.map (·.1)) ↔ cb ∈ l.map (·.1) := ⟨fun h => h.resolve_left ha', Or.inr⟩
+      simp only [ha, beq_iff_eq, Bool.false_eq_true, ↓reduceIte, ih']
+      by_cases hm : cb ∈ l.map (·.1)
+      · rw [if_pos hm, if_pos (Or.inr hm)]
+      · rw [if_neg hm, if_neg (fun h => hm (hor.mp h))]
 
 /-- the messages handed to callback `cb` in a list of outputs -/
 def deliveriesTo (cb : Nat) : List Out → List Pub
@@ -200,49 +356,6 @@ theorem deliveriesTo_map (cb : Nat) (p : Pub) (r : List (Nat × Nat)) :
 
 /-- the filters under which callback `cb` is held -/
 def heldBy (cb : Nat) (store : List Sub) : List Bytes := (store.filter (fun e => e.sub == cb)).map (·.filter)
-
-theorem heldBy_nodup (cb : Nat) (store : List Sub) (h : KeysNodup store) : (heldBy cb store).Nodup := by
-  have h1 := keysNodup_filter store (fun e => e.sub == cb) h
-  unfold KeysNodup at h1
-  unfold heldBy
-  rw [List.Nodup, List.pairwise_map] at h1 ⊢
-  refine h1.imp_of_mem ?_
-  intro a b ha hb hne heq
-  have ha' : a.sub = cb := by simpa using (List.mem_filter.mp ha).2
-  have hb' : b.sub = cb := by simpa using (List.mem_filter.mp hb).2
-  exact hne (by rw [ha', hb', heq])
-
-theorem count_matching (cb : Nat) (store : List Sub) (t : Bytes) (q : Nat) :
-    ((specAnswer store t q).filter (fun s => s.1 == cb)).length =
-      ((heldBy cb store).filter (fun f => topicMatches f t)).length := by
-  unfold specAnswer heldBy
-  induction store with
-  | nil => rfl
-  | cons e store ih =>
-    simp only [List.filter_cons]
-    by_cases hm : topicMatches e.filter t = true <;> by_cases hs : (e.sub == cb) = true <;>
-      simp [hm, hs, List.filter_cons] <;> simpa using ih
-
-theorem length_filter_unique {α} [DecidableEq α] (l : List α) (P : α → Bool) (hn : l.Nodup)
-    (hu : ∀ a ∈ l, ∀ b ∈ l, P a = true → P b = true → a = b) :
-    (l.filter P).length = if l.any P then 1 else 0 := by
-  induction l with
-  | nil => rfl
-  | cons a l ih =>
-    have hn' := (List.nodup_cons.mp hn)
-    have ih' := ih hn'.2 (fun x hx y hy => hu x (by simp [hx]) y (by simp [hy]))
-    simp only [List.filter_cons, List.any_cons]
-    by_cases ha : P a = true
-    · have hnone : l.any P = false := by
-        rw [List.any_eq_false]
-        intro b hb hPb
-        have := hu a (by simp) b (by simp [hb]) ha hPb
-        subst this
-        exact hn'.1 hb
-      rw [hnone] at ih'
-      simp [ha, ih']
-    · have ha' : P a = false := by simpa using ha
-      simp [ha', ih']
 
 /-- does the SUBACK grant the filter of this (filter, requested QoS, return code) triple? -/
 def isGranted (tc : (Bytes × Nat) × Nat) : Bool := tc.2 != 0x80 && decide (tc.2 ≤ 2) && validFilter tc.1.1
@@ -320,24 +433,62 @@ theorem heldBy_grantStore (cb : Nat) (tcs : List ((Bytes × Nat) × Nat)) (hg : 
         · exact Or.inl (Or.inr h)
         · exact Or.inr h
 
-/-- how often `onPublish` invokes callback `cb`: once per filter held for `cb` that matches the topic -/
+/-- how often `onPublish` invokes callback `cb`: exactly once if a filter held for `cb` matches the
+topic - however many of them do -, not at all otherwise -/
 theorem deliveries_count (c : C) (store : List Sub) (h : TI c.topics store) (p : Pub) (hg : good p.topic = true)
     (hn : validName p.topic = true) (hq : p.qos ≤ 2) (cb : Nat) :
-    (deliveriesTo cb (onPublish c p)).length = ((heldBy cb store).filter (fun f => topicMatches f p.topic)).length ∧
+    (deliveriesTo cb (onPublish c p)).length =
+      (if (heldBy cb store).any (fun f => topicMatches f p.topic) then 1 else 0) ∧
     ∀ m ∈ deliveriesTo cb (onPublish c p), m.topic = p.topic ∧ m.payload = p.payload ∧ m.qos ≤ p.qos := by
   obtain ⟨r, hr, hp⟩ := onPublish_perm c store h p hg hn hq
   rw [hr, deliveriesTo_map]
   refine ⟨?_, ?_⟩
-  · rw [List.length_map, ← count_matching cb store p.topic p.qos]
-    exact (hp.filter _).length_eq
+  · rw [List.length_map, length_filter_nodup_key _ cb (firstPerCb_nodup r [])]
+    have hiff : cb ∈ (firstPerCb [] r).map (·.1) ↔
+        (heldBy cb store).any (fun f => topicMatches f p.topic) = true := by
+      rw [mem_firstPerCb_cb]
+      simp only [List.not_mem_nil, not_false_eq_true, and_true, List.mem_map, List.any_eq_true, mem_heldBy]
+      constructor
+      · rintro ⟨s, hs, rfl⟩
+        have := hp.subset hs
+        simp only [specAnswer, List.mem_map, List.mem_filter] at this
+        obtain ⟨e, ⟨he, hm⟩, rfl⟩ := this
+        exact ⟨e.filter, ⟨e, he, rfl, rfl⟩, hm⟩
+      · rintro ⟨f, ⟨e, he, rfl, rfl⟩, hm⟩
+        have : (e.sub, min p.qos e.qos) ∈ specAnswer store p.topic p.qos := by
+          simp only [specAnswer, List.mem_map, List.mem_filter]
+          exact ⟨e, ⟨he, hm⟩, rfl⟩
+        exact ⟨_, hp.symm.subset this, rfl⟩
+    by_cases hc : cb ∈ (firstPerCb [] r).map (·.1)
+    · simp [hc, hiff.mp hc]
+    · have : ¬ (heldBy cb store).any (fun f => topicMatches f p.topic) = true := fun h' => hc (hiff.mpr h')
+      simp [hc, this]
   · intro m hm
     simp only [List.mem_map, List.mem_filter] at hm
     obtain ⟨s, ⟨hs, _⟩, rfl⟩ := hm
     refine ⟨rfl, rfl, ?_⟩
-    have := hp.subset hs
+    have := hp.subset (firstPerCb_subset r [] s hs)
     simp only [specAnswer, List.mem_map] at this
     obtain ⟨e, _, rfl⟩ := this
     exact Nat.min_le_left _ _
+
+/-- which QoS the single invocation carries: the highest `min (message QoS) (granted QoS)` over the
+entries of `cb` whose filter matches - independent of the order the trie walk (a Go map iteration)
+produces them in -/
+theorem deliveries_qos_max (c : C) (store : List Sub) (h : TI c.topics store) (p : Pub) (hg : good p.topic = true)
+    (hn : validName p.topic = true) (hq : p.qos ≤ 2) (cb : Nat) :
+    ∀ m ∈ deliveriesTo cb (onPublish c p), ∀ e ∈ store, e.sub = cb → topicMatches e.filter p.topic = true →
+      min p.qos e.qos ≤ m.qos := by
+  obtain ⟨r, hr, hp⟩ := onPublish_perm c store h p hg hn hq
+  rw [hr, deliveriesTo_map]
+  intro m hm e he hs hmatch
+  simp only [List.mem_map, List.mem_filter, beq_iff_eq] at hm
+  obtain ⟨s, ⟨hsm, hscb⟩, rfl⟩ := hm
+  have hx : (e.sub, min p.qos e.qos) ∈ r := by
+    apply hp.symm.subset
+    simp only [specAnswer, List.mem_map, List.mem_filter]
+    exact ⟨e, ⟨he, hmatch⟩, rfl⟩
+  exact firstPerCb_max r [] s hsm _ hx (by rw [hs, hscb])
 
 /-! ### the SUBACK / UNSUBACK of the oldest request -/
 
@@ -430,83 +581,5 @@ theorem deliveriesTo_exchange {α} (cb id : Nat) (dups : List α) (X : List Out)
     | cons a l ih => simpa [deliveriesTo] using ih
   simp only [List.cons_append, List.flatten_cons, List.flatten_append, List.flatten_nil, List.append_nil,
     deliveriesTo_append, h1, List.singleton_append, deliveriesTo, List.nil_append, List.append_nil]
-
-/-! ### a static sufficient condition for "no two filters of the request match the same topic" -/
-
-open Mqtt.Spec.Match (matchLevels HASH PLUS) in
-/-- can two filters (as level lists) match a common name?  (over-approximation: `true` whenever they can) -/
-def overlapLevels : List (List UInt8) → List (List UInt8) → Bool
-  | [], [] => true
-  | [], g :: gs => g == [HASH] && gs.isEmpty
-  | f :: fs, [] => f == [HASH] && fs.isEmpty
-  | f :: fs, g :: gs =>
-    if f == [HASH] || g == [HASH] then true
-    else (f == [PLUS] || g == [PLUS] || f == g) && overlapLevels fs gs
-
-/-- two filters overlap: some topic name may match both -/
-def overlap (f g : Bytes) : Bool := overlapLevels (split f) (split g)
-
-open Mqtt.Spec.Match (matchLevels HASH PLUS) in
-theorem overlapLevels_sound (ns : List (List UInt8)) : ∀ (fs gs : List (List UInt8)),
-    matchLevels fs ns = true → matchLevels gs ns = true → overlapLevels fs gs = true := by
-  induction ns with
-  | nil =>
-    intro fs gs hf hg
-    cases fs with
-    | nil =>
-      cases gs with
-      | nil => rfl
-      | cons g gs => simpa [matchLevels, overlapLevels] using hg
-    | cons f fs =>
-      cases gs with
-      | nil => simpa [matchLevels, overlapLevels] using hf
-      | cons g gs =>
-        simp only [matchLevels, Bool.and_eq_true, beq_iff_eq] at hf
-        simp [overlapLevels, hf.1]
-  | cons n ns ih =>
-    intro fs gs hf hg
-    cases fs with
-    | nil => simp [matchLevels] at hf
-    | cons f fs =>
-      cases gs with
-      | nil => simp [matchLevels] at hg
-      | cons g gs =>
-        simp only [overlapLevels]
-        by_cases hfh : f = [HASH]
-        · simp [hfh]
-        · by_cases hgh : g = [HASH]
-          · simp [hgh]
-          · have hfb : (f == [HASH]) = false := by simpa using hfh
-            have hgb : (g == [HASH]) = false := by simpa using hgh
-            simp only [matchLevels, hfb, hgb, Bool.false_eq_true, ↓reduceIte, Bool.and_eq_true, Bool.or_eq_true,
-              beq_iff_eq] at hf hg
-            simp only [hfb, hgb, Bool.or_self, Bool.false_eq_true, ↓reduceIte, Bool.and_eq_true, Bool.or_eq_true,
-              beq_iff_eq]
-            refine ⟨?_, ih fs gs hf.2 hg.2⟩
-            rcases hf.1 with h | h
-            · exact Or.inl (Or.inl h)
-            · rcases hg.1 with h' | h'
-              · exact Or.inl (Or.inr h')
-              · exact Or.inr (h.trans h'.symm)
-
-/-- filters that do not overlap never match the same topic -/
-theorem overlap_sound (f g t : Bytes) (h : overlap f g = false) :
-    ¬ (topicMatches f t = true ∧ topicMatches g t = true) := by
-  rintro ⟨h1, h2⟩
-  have := overlapLevels_sound (split t) (split f) (split g) h1 h2
-  unfold overlap at h
-  rw [this] at h
-  cases h
-
-/-- the filters of a list are pairwise non-overlapping -/
-def nonOverlapping (l : List Bytes) : Bool := l.all (fun f => l.all (fun g => f == g || !overlap f g))
-
-theorem nonOverlapping_unique (l : List Bytes) (h : nonOverlapping l = true) (t : Bytes) :
-    ∀ f ∈ l, ∀ g ∈ l, topicMatches f t = true → topicMatches g t = true → f = g := by
-  intro f hf g hg h1 h2
-  simp only [nonOverlapping, List.all_eq_true, Bool.or_eq_true, beq_iff_eq, Bool.not_eq_true'] at h
-  rcases h f hf g hg with h | h
-  · exact h
-  · exact absurd ⟨h1, h2⟩ (overlap_sound f g t h)
 
 end Mqtt.Proofs.Client
